@@ -30,4 +30,14 @@ def obligations():
                         memwords=3, functions=['opus_packet_unpad', 'opus_repacketizer_out_range_impl'] + ([] if unpad_only else ['opus_packet_pad_impl']),
                         tier=tier, budget=(900 if tier == 'quick' else 1500), witness=(ln >= 4 or not unpad_only),
                         bounds='any packet of exactly %d bytes with at most that many frames%s; new_len = len..len+%d' % (ln, '' if unpad_only else ' without a padding flag', 0 if unpad_only else xp)))
+    for ln, cm, xp, tier in ((5, 2, 2, 'quick'), (6, 2, 2, 'quick'), (7, 3, 3, 'thorough'), (8, 3, 3, 'thorough')):
+        for unpad_only in (0, 1):
+            L.append(Ob('H4.multistream_%s.len%d' % ('unpad' if unpad_only else 'pad_unpad', ln), 'C07_mspad.c', ['src/repacketizer.c', 'src/opus.c', 'src/opus_decoder.c'],
+                        ['-DLEN=%d' % ln, '-DCMAX=%d' % cm, '-DXP=%d' % (0 if unpad_only else xp)] + (['-DUNPAD_ONLY'] if unpad_only else []), unwind=1,
+                        unwindset=['harness:%d' % (ln + xp + 3), 'same_frames:%d' % (ln + 2), 'canon_size:%d' % (cm + 3), 'rfc_parse:%d' % (ln + 2), 'opus_packet_parse_impl:%d' % (ln + 2),
+                                   'opus_repacketizer_out_range_impl:%d' % (ln + xp + 2), 'opus_repacketizer_cat_impl:%d' % (ln + 2), 'opus_packet_unpad:%d' % (ln + 2),
+                                   'opus_multistream_packet_unpad:%d' % (ln + 2), 'opus_multistream_packet_pad:3'],
+                        memwords=3, functions=['opus_multistream_packet_unpad', 'opus_repacketizer_out_range_impl'] + ([] if unpad_only else ['opus_multistream_packet_pad']),
+                        tier=tier, budget=(900 if tier == 'quick' else 1500),
+                        bounds='any 2-stream packet of exactly %d bytes, at most %d frames per stream%s; new_len = len..len+%d' % (ln, cm, '' if unpad_only else ', last stream without a padding flag', 0 if unpad_only else xp)))
     return L
